@@ -226,13 +226,28 @@ def gen_ladder():
         raise SystemExit("translator: op_7 not found")
     unary = [t.group(1) for t in re.finditer(r'tag\(\s*"([^"]*)"\s*\)', m.group(1))]
     m = re.search(r"rule!\(op_0\s*->\s*Value,\s*\{\s*alt\(\((.*?)\)\)", src, re.S)
-    if not m:
-        raise SystemExit("translator: op_0 not found")
-    op0_alts = [x.strip() for x in m.group(1).split(",") if x.strip()]
-    m = re.search(r"terminated\(\s*(\w+)\s*,\s*ws\(tag\(\"\?\"\)\)\)", src)
-    if not m:
-        raise SystemExit("translator: ternary condition rule not found")
-    cond_level = m.group(1)
+    if m:
+        # combinator form: alt((op_if, op_let, <plain>)) with the `cond ? yes : no` form inside op_if
+        op0_alts = [x.strip() for x in m.group(1).split(",") if x.strip()]
+        m = re.search(r"terminated\(\s*(\w+)\s*,\s*ws\(tag\(\"\?\"\)\)\)", src)
+        if not m:
+            raise SystemExit("translator: ternary condition rule not found")
+        cond_level = m.group(1)
+    else:
+        # hand-sequenced form: op_if(i) first; `let plain = <rule>(i)` parsed once and used both as the condition of
+        # `? :` and as the plain alternative; op_let(i) between the two uses
+        m = re.search(r"rule!\(op_0\s*->\s*Value,\s*\{(.*?)\n\}\);", src, re.S)
+        if not m:
+            raise SystemExit("translator: op_0 not found")
+        b0 = m.group(1)
+        calls = [(c.start(), c.group(1)) for c in re.finditer(r"\b(op_\w+)\s*\(\s*i\s*\)", b0)]
+        pl = re.search(r"let\s+plain\s*=\s*(op_\w+)\s*\(\s*i\s*\)", b0)
+        q, c = b0.find('tag("?")'), b0.find('tag(":")')
+        if not pl or [n for _, n in calls] != ["op_if", pl.group(1), "op_let"] or not (calls[1][0] < q < c < calls[2][0]) \
+                or not re.search(r"Err\(nom::Err::Error\(_\)\)\s*=>\s*plain", b0[calls[2][0]:]):
+            raise SystemExit("translator: op_0 has an unknown shape")
+        op0_alts = ["op_if", "op_let", pl.group(1)]
+        cond_level = pl.group(1)
     # documented table
     doc = []
     for line in open(os.path.join(REPO, "milu/readme.md")).read().splitlines():
